@@ -1130,21 +1130,25 @@ func scopes() []*scope {
 			gen: concat(genSetPeers(mkEnvs(5, [][]int{allUp(5)}, l0, f3, r0), origins(5, 4, false), targets(5, 4, true), allFlags[1:], false),
 				genSetPeers(mkEnvs(5, [][]int{allUp(5)}, l0, f3, r0), origins(5, 4, false), targets(5, 3, true), noFlags, true))},
 		{name: "setpeers/5stores/2-non-up", tiers: "thorough",
-			desc: "origins <=3 x targets <=3 of 5 stores x every assignment of <=2 non-up stores (offline/down/evicted/reject-leader) x both label layouts x 3 feature levels x {plain, force}; origins <=4 x targets <=4 for every single non-up store",
-			gen: concat(genSetPeers(mkEnvs(5, envStates(5, 2, kinds4, nil), []int{0, 1}, f3, r0), origins(5, 3, false), targets(5, 3, true), plainForce, false),
-				genSetPeers(mkEnvs(5, envStates(5, 1, kinds4, nil)[1:], l0, f3, r0), origins(5, 4, false), targets(5, 4, true), plainForce, false))},
+			desc: "5 stores, 3 feature levels: origins <=3 x targets <=3 x every assignment of 2 non-up stores (offline/down/evicted/reject-leader); x {plain, force} for all up and every single non-up store; origins <=4 x targets <=4 x {plain, force} for every single non-up store; label layout z1 z1 z2 z2 z3 with <=1 non-up store",
+			gen: concat(genSetPeers(mkEnvs(5, envStates(5, 2, kinds4, nil)[21:], l0, f3, r0), origins(5, 3, false), targets(5, 3, true), noFlags, false),
+				genSetPeers(mkEnvs(5, envStates(5, 1, kinds4, nil), l0, f3, r0), origins(5, 3, false), targets(5, 3, true), plainForce, false),
+				genSetPeers(mkEnvs(5, envStates(5, 1, kinds4, nil)[1:], l0, f3, r0), origins(5, 4, false), targets(5, 4, true), plainForce, false),
+				genSetPeers(mkEnvs(5, envStates(5, 1, kinds4, nil), []int{1}, f3, r0), origins(5, 3, false), targets(5, 3, true), noFlags, false))},
 		{name: "setpeers/5stores/placement-rules", tiers: "thorough",
 			desc: "placement rules on (2 voters in z1/z2, 1 learner in z3): origins <=3 x targets <=3, <=1 non-up store, {plain, force}",
 			gen:  genSetPeers(mkEnvs(5, envStates(5, 1, kinds4, nil), []int{1}, f3, []int{1}), origins(5, 3, false), targets(5, 3, true), plainForce, false)},
 		{name: "move-region", tiers: "thorough",
-			desc: "CreateMoveRegionOperator with expected roles on <=4 of 5 stores (origins <=3, <=1 non-up store) and <=3 of 6 stores (origins <=4, all up / store 1 or 6 offline or evicted, both layouts)",
+			desc: "CreateMoveRegionOperator with expected roles on <=4 of 5 stores (origins <=3, <=1 non-up store) and <=3 of 6 stores (origins <=3, all up / store 1 or 6 offline or evicted, both layouts)",
 			gen: concat(genMoveRegion(mkEnvs(5, envStates(5, 1, kinds4, nil), l0, f3, r0), origins(5, 3, false), roleTargets(5, 4)),
-				genMoveRegion(mkEnvs(6, envStates(6, 1, []int{sOffline, sEvicted}, []int{0, 5}), []int{0, 1}, f3, r0), origins(6, 4, false), roleTargets(6, 3)))},
+				genMoveRegion(mkEnvs(6, envStates(6, 1, []int{sOffline, sEvicted}, []int{0, 5}), []int{0, 1}, f3, r0), origins(6, 3, false), roleTargets(6, 3)))},
 		{name: "helpers/5stores", tiers: "thorough",
-			desc: "every helper with every store argument on 5 stores: plain origins <=4 with an origin peer pending, <=1 non-up store, both layouts; joint-state origins <=4 with all helpers, all up or store 1 / store 5 non-up",
+			desc: "every helper with every store argument on 5 stores, 3 feature levels: plain origins <=4 with <=1 non-up store (an origin peer pending when all stores are up); joint-state origins <=3 with all helpers and joint-state origins <=4 without the two-store move helpers, all up or store 1 / store 5 non-up",
 			gen: concat(
-				genHelpers(mkEnvs(5, envStates(5, 1, kinds4, nil), []int{0, 1}, f3, r0), origins(5, 4, false), targets(5, 3, true), true, true),
-				genHelpers(mkEnvs(5, envStates(5, 1, kinds4, []int{0, 4}), l0, f3, r0), origins(5, 4, true), targets(5, 3, true), false, true))},
+				genHelpers(mkEnvs(5, envStates(5, 1, kinds4, nil), l0, f3, r0), origins(5, 4, false), targets(5, 3, true), false, true),
+				genHelpers(mkEnvs(5, [][]int{allUp(5)}, l0, f3, r0), origins(5, 4, false), targets(5, 3, true), true, true),
+				genHelpers(mkEnvs(5, envStates(5, 1, kinds4, []int{0, 4}), l0, f3, r0), origins(5, 3, true), targets(5, 3, true), false, true),
+				genHelpers(mkEnvs(5, envStates(5, 1, kinds4, []int{0, 4}), l0, f3, r0), origins(5, 4, true), targets(5, 2, true), false, false))},
 	}
 }
 
